@@ -18,6 +18,8 @@ FUNCTIONS = [
     _C + "_populate_face_centroids",
     _C + "_populate_edge_centroids",
     _C + "_populate_face_centerpoints",
+    _C + "_construct_face_centroids",
+    _C + "_construct_edge_centroids",
     "uxarray.grid.grid.Grid.face_lon",
     "uxarray.grid.grid.Grid.face_lat",
     "uxarray.grid.grid.Grid.edge_lon",
@@ -33,5 +35,5 @@ ASSUMPTIONS = [
     "vectorised numpy conversion functions are verified for a generic element (parameters typed real): they use elementwise operations only; any indexing/reduction would make them UNDECIDED",
 ]
 EXPLANATION = "pointwise real-arithmetic contracts on every conversion function"
-LEVEL_TEXT = 'every conversion function (_lonlat_rad_to_xyz, both _normalize_xyz, _xyz_to_lonlat_rad/_scalar/_no_norm/_deg) proved pointwise over the reals: unit length, direction preserved, pole snap, ranges; populate/provenance/access-order behaviour is a bounded stand-in (103 provenance scenarios x access orders)'
+LEVEL_TEXT = '_construct_face_centroids / _construct_edge_centroids proved: the centre of an element is normalise(mean of the Cartesian coordinates of exactly its own corners) (mean over the first n_nodes_per_face[f] entries of the row; edge: chord midpoint), loop invariant for any mesh; the populate_* plumbing and the lazy lon/lat properties proved in dataflow form (which conversion is applied to which array of THIS grid, three provenance branches, wrap of constructed longitudes whichever property is read first, nothing else touched); every conversion function (_lonlat_rad_to_xyz, both _normalize_xyz, _xyz_to_lonlat_rad/_scalar/_no_norm/_deg) proved pointwise over the reals: unit length, direction preserved, pole snap, ranges; populate/provenance/access-order behaviour is a bounded stand-in (103 provenance scenarios x access orders)'
 LEVEL_NOTE = 'A-REAL (float64 as reals), A-TRIG axioms for sin/cos/asin/atan2/sqrt/fmod; vectorised functions verified for a generic element'
